@@ -123,3 +123,24 @@ Fixpoint euler (f : vec -> Q -> vec) (h t : Q) (k : nat) (V : vec) : vec :=
   | O => V
   | S k' => euler f h (t + h) k' (euler_step f h t V)
   end.
+
+(* explicit Runge-Kutta methods: a tableau is a list of stages (c_i, [a_i1; ...; a_i,i-1]) and weights b.
+   k_i = f (V + h * sum_j a_ij k_j, t + c_i h);  V_next = V + h * sum_i b_i k_i.   Euler = ([(0, [])], [1]). *)
+Definition lcomb (cs : list Q) (ks : list vec) (z : vec) : vec :=
+  fold_left (fun acc ck => vadd acc (smul (fst ck) (snd ck))) (combine cs ks) z.
+Fixpoint rk_stages (f : vec -> Q -> vec) (h t : Q) (V : vec) (tab : list (Q * list Q)) (acc : list vec) : list vec :=
+  match tab with
+  | [] => acc
+  | (c, a) :: tab' =>
+    let Vi := vadd V (smul h (lcomb a acc (map (fun _ => 0) V))) in
+    rk_stages f h t V tab' (acc ++ [f Vi (t + c * h)])
+  end.
+Definition rk_step (tab : list (Q * list Q)) (b : list Q) (f : vec -> Q -> vec) (h t : Q) (V : vec) : vec :=
+  vadd V (smul h (lcomb b (rk_stages f h t V tab []) (map (fun _ => 0) V))).
+Fixpoint rk_iter (tab : list (Q * list Q)) (b : list Q) (f : vec -> Q -> vec) (h t : Q) (k : nat) (V : vec) : vec :=
+  match k with
+  | O => V
+  | S k' => rk_iter tab b f h (t + h) k' (rk_step tab b f h t V)
+  end.
+Definition rk4_tab : list (Q * list Q) := [(0, []); (1 # 2, [1 # 2]); (1 # 2, [0; 1 # 2]); (1, [0; 0; 1])].
+Definition rk4_b : list Q := [1 # 6; 1 # 3; 1 # 3; 1 # 6].
